@@ -9,7 +9,7 @@
     native text, from the first re-parse on for foreign spellings) - partial in that sense. *)
 From V Require Import base.Prelude base.Strs gen.Tables model.Cfg model.Names model.Wildcard model.Ports model.Addr model.Ace
   model.Lex model.AddrText model.AceText model.AclText
-  proofs.NamesProofs proofs.PortsProofs proofs.TextProofs proofs.SplitterProofs proofs.AceFixProofs proofs.AddrObjProofs proofs.ParsedAceProofs proofs.GroupAceProofs proofs.AclFixProofs proofs.ClassCheck.
+  proofs.NamesProofs proofs.PortsProofs proofs.TextProofs proofs.SplitterProofs proofs.AceFixProofs proofs.AddrObjProofs proofs.ParsedAceProofs proofs.GroupAceProofs proofs.AclFixProofs proofs.ClassCheck proofs.StdAceProofs.
 Local Open Scope N_scope.
 
 Theorem C06_port_partial : forall pr pl v15 nr o xs p,
@@ -145,6 +145,23 @@ Theorem C06_checked : forall c t, plat_okb (plat c) = true -> src_builtb c t = t
   parse_ace_text c (render_ace c t) = Ok t.
 Proof. exact fixpoint_checked. Qed.
 
+
+(** ** standard-type ACEs
+    "[seq] permit|deny SRC [options]" with SRC built by the address reader from a native spelling
+    (not N1), the reader's "any" as destination, protocol 0, no ports, and option tokens that are
+    well-formed, start no address and are accepted by the option reader: the rendered line is
+    REFUSED by the extended pattern ([ext_none]: no destination can be found), read by the
+    standard pattern, and gives the SAME entry.  (The finding N14 is an entry whose option text is
+    "any" - it starts an address, so it is outside the hypotheses, as it must be.) *)
+Theorem C06_standard_ace : forall c, (plat c = Ios \/ plat c = Nxos) ->
+  forall permit sq ssp s dany opts flags logs,
+  sp_bounds ssp /\ ~ is_n1 (plat c) ssp /\ addr_of_spelling (plat c) (Z.of_nat (max_ncwb c)) ssp = Ok s ->
+  addr_of_spelling (plat c) (Z.of_nat (max_ncwb c)) SAny = Ok dany ->
+  Forall token opts /\ Forall af opts /\ parse_option opts = Ok (flags, logs) ->
+  let t := mkTace false sq (mkAce permit 0 s dany empty_port empty_port flags logs) opts in
+  parse_ace_text c (render_ace c t) = Ok t.
+Proof. exact std_ace_fixpoint. Qed.
+
 Theorem C06_port_tokens : forall nr c p, Forall token (render_port nr c p) /\ Forall af (render_port nr c p).
 Proof. exact render_port_toks. Qed.
 
@@ -231,3 +248,11 @@ Proof.
     split; [split; [vm_compute; reflexivity|discriminate]|].
     split; [toks|]. split; [afs|]. split; vm_compute; reflexivity.
 Qed.
+
+Definition c06_std_opt : option tace := Eval vm_compute in
+  match parse_ace_text c06_cx "10 permit host 10.0.0.1 log" with Ok t => Some t | _ => None end.
+Example C06_standard_nonvacuous :
+  exists s dany, c06_std_opt = Some (mkTace false 10 (mkAce true 0 s dany empty_port empty_port [] ["log"]) ["log"])
+    /\ addr_of_spelling Ios 16 (SHost 167772161) = Ok s /\ addr_of_spelling Ios 16 SAny = Ok dany
+    /\ render_ace c06_cx (mkTace false 10 (mkAce true 0 s dany empty_port empty_port [] ["log"]) ["log"]) = "10 permit host 10.0.0.1 log".
+Proof. eexists. eexists. split; [vm_compute; reflexivity|]. split; [vm_compute; reflexivity|]. split; vm_compute; reflexivity. Qed.
